@@ -104,7 +104,14 @@ def rule_limit(ctx: Ctx) -> RuleReport:
         else:
             rep.fail(Finding("C12-LIMIT", ARCH, s7.qual, "SevenZipFile(file_like, 'r')", "the 7z archive is opened before / without the 100 MB test", line=s7.node.lineno))
         sz = [n for n in s7.node.body if isinstance(n, ast.Assign) and norm(n.targets[0]) == (asz or "archive_size")]
-        seq = [norm(s) for s in s7.node.body[:6]]
+        # through plain copies (`size = file_like.tell(); ...; archive_size = size`) back to the statement that measures
+        hops = 0
+        while sz and isinstance(sz[0].value, ast.Name) and hops < 4:
+            prev = [n for n in s7.node.body if isinstance(n, ast.Assign) and len(n.targets) == 1 and norm(n.targets[0]) == sz[0].value.id]
+            if len(prev) != 1:
+                break
+            sz, hops = prev, hops + 1
+        seq = [norm(s) for s in s7.node.body[:8]]
         if sz and norm(sz[0].value) == "file_like.tell()" and "file_like.seek(0, os.SEEK_END)" in seq and seq.index("file_like.seek(0, os.SEEK_END)") < seq.index(norm(sz[0])):
             rep.ok({"7z": "archive_size = position after seek to the end"})
         else:
